@@ -13,6 +13,18 @@ def hexVal (c : Char) : Option Nat :=
 /-- decode a hex string ("-" = empty) into bytes -/
 def hexBytes (s : String) : Option (List UInt8) :=
   if s = "-" then some [] else
+  if s.startsWith "r" then
+    -- r<byte>:<count> = a run of one byte value
+    match (s.drop 1).toString.splitOn ":" with
+    | [b, n] =>
+      match b.toList, n.toNat? with
+      | [x, y], some k =>
+        match hexVal x, hexVal y with
+        | some hi, some lo => some (List.replicate k (UInt8.ofNat (hi * 16 + lo)))
+        | _, _ => none
+      | _, _ => none
+    | _ => none
+  else
   let rec go : List Char → List UInt8 → Option (List UInt8)
     | [], acc => some acc.reverse
     | [_], _ => none
@@ -27,6 +39,11 @@ def hexDigit (n : Nat) : Char :=
 
 def toHex (bs : List UInt8) : String :=
   if bs.isEmpty then "-" else
+  -- (same convention as the harness: a run of >= 64 equal bytes is r<byte>:<count>)
+  if bs.length ≥ 64 && bs.all (· == bs.head!) then
+    let b := bs.head!
+    s!"r{String.ofList [hexDigit (b.toNat / 16), hexDigit (b.toNat % 16)]}:{bs.length}"
+  else
   String.ofList (bs.flatMap fun b => [hexDigit (b.toNat / 16), hexDigit (b.toNat % 16)])
 
 def bitsOfBytes (bs : List UInt8) : List Bool :=
